@@ -113,14 +113,16 @@ class MStruct(Node):
         return T.Struct(self.name, [(n, node.mk(T)) for n, node in self.fields])
 
     def children(self):
+        """steps are ("f", name, depth): depth = number of anonymous aggregates between this
+        struct and the member (miasm exposes view attributes only for depth <= 1)"""
         out = []
         for (name, node), off in zip(self.fields, self.offsets):
             if name:
-                out.append((("f", name), node, off))
+                out.append((("f", name, 0), node, off))
             else:
                 # anonymous aggregate: its members are reachable from this struct
                 for step, sub, suboff in node.children():
-                    out.append((step, sub, off + suboff))
+                    out.append((("f", step[1], step[2] + 1), sub, off + suboff))
         return out
 
     def descr(self):
@@ -154,7 +156,7 @@ class MArray(Node):
         return T.Array(self.elem.mk(T), self.n)
 
     def children(self):
-        return [(("i", i), self.elem, i * self.elem.size) for i in range(self.n)]
+        return [(("i", i, 0), self.elem, i * self.elem.size) for i in range(self.n)]
 
     def descr(self):
         return "[%s;%d]" % (self.elem.descr(), self.n)
@@ -209,7 +211,7 @@ class MBitField(Node):
         return T.BitField(T.Num(self.num.fmt), list(self.bits))
 
     def children(self):
-        return [(("f", name), node, 0) for name, node in self.members]
+        return [(("f", name, 0), node, 0) for name, node in self.members]
 
     def descr(self):
         return "BitField(%s;%s)" % (self.num.fmt, ",".join("%s:%d" % b for b in self.bits))
@@ -287,10 +289,40 @@ class Gen(object):
         return out
 
     def struct(self, depth):
-        return MStruct(self.name(), self.fields(depth, 1, 5 if depth else 6, True))
+        return bind_self(MStruct(self.name(), self.fields(depth, 1, 5 if depth else 6, True)))
 
     def union(self, depth):
-        return MUnion(self.fields(depth, 1, 4, False))
+        return bind_self(MUnion(self.fields(depth, 1, 4, False)))
+
+
+def bind_self(agg):
+    """Ptr(Self) members (directly or as array elements) point to the innermost enclosing
+    Struct/Union, as Struct._gen_fields/_set_self_type do"""
+    def visit(node):
+        if isinstance(node, MPtr) and node.dst_kind == "self":
+            node.dst = agg
+        elif isinstance(node, MArray):
+            visit(node.elem)
+    for _, f in agg.fields:
+        visit(f)
+    return agg
+
+
+def self_ptr_in_union(node, seen=None):
+    """does the tree hold a Ptr(Self) whose enclosing aggregate is a Union?"""
+    seen = set() if seen is None else seen
+    if id(node) in seen:
+        return False
+    seen.add(id(node))
+    if isinstance(node, MPtr):
+        if node.dst_kind == "self":
+            return isinstance(node.dst, MUnion)
+        return isinstance(node.dst, Node) and self_ptr_in_union(node.dst, seen)
+    if isinstance(node, MStruct):
+        return any(self_ptr_in_union(f, seen) for _, f in node.fields)
+    if isinstance(node, MArray):
+        return self_ptr_in_union(node.elem, seen)
+    return False
 
 
 def leaves(node, base=0, path=()):
@@ -324,7 +356,7 @@ def kinds(node, acc=None):
             kinds(f, acc)
     elif isinstance(node, MArray):
         kinds(node.elem, acc)
-    elif isinstance(node, MPtr) and isinstance(node.dst, Node):
+    elif isinstance(node, MPtr) and isinstance(node.dst, Node) and node.dst_kind != "self":
         kinds(node.dst, acc)
     if isinstance(node, MNum) and not node.is_float and node.size > 1:
         acc.add("order:" + ("big" if node.fmt.startswith(">") else "little"))
